@@ -654,9 +654,9 @@ def run(ctx: Ctx):
     for _ in range(ctx.budget(350, 8000)):
         random_tree(ctx, rng, 3)
     # 3b. round 4: state names equal across types (0 == 0.0 == False == Fraction(0))
-    cross_type_names_family(ctx, ctx.budget(90, 1200))
+    cross_type_names_family(ctx, ctx.budget(90, 600))
     # 4. round 4: the mutable-automata option — sequences of operations on the same live objects
-    mutable_option_family(ctx, ctx.budget(120, 1200))
+    mutable_option_family(ctx, ctx.budget(120, 600))
     report_budget(ctx)
 
 
